@@ -10,5 +10,7 @@ for f in coq/Run/*Extract.v; do u=$(basename $f Extract.v | tr A-Z a-z); mkdir -
 CM_TIMEOUT=3000 bin/cm -k || true         # full .vo build of the whole development
 for f in coq/Run/*Extract.v; do u=$(basename $f Extract.v | tr A-Z a-z); runner/build.sh $u || true; done
 cp /repo/Cargo.lock harness/Cargo.lock
-( cd harness && for b in src/bin/vh_*.rs; do cargo build --release --offline --features hooks --bin $(basename $b .rs) || true; done )
+( cd harness && for b in src/bin/vh_*.rs; do n=$(basename $b .rs); [ "$n" = vh_wirejson ] && continue; cargo build --release --offline --features hooks --bin $n || true; done )
+# C20: the harness with the repository's own pyo3 bindings in an embedded CPython; own target dir (other feature set)
+( cd harness && CARGO_TARGET_DIR=/verif/.cache/target_py cargo build --release --offline --features hooks,py --bin vh_wirejson || true )
 echo setup-ok
